@@ -22,6 +22,7 @@ import (
 	"verif/checks/c03"
 	"verif/checks/c09"
 	"verif/checks/sc"
+	"verif/checks/streamx"
 	"verif/gen"
 	"verif/internal/ev"
 	"verif/internal/lib"
@@ -31,7 +32,7 @@ func init() {
 	ev.Register(&ev.Check{
 		ID:             "C11",
 		Level:          "model_checking",
-		Rule:           "(a) histories: ALL sequences of <= 3 (thorough 4) operations from a 46-operation alphabet (8 schema methods x {plain schema, schema with types/allOf/enum rule, invalid schema}, Check/Len on 3 documents and on an embedded document with trailing text, Validate and the NextLexeme stream of LIVE document objects that have only been through the rewinding Len/Check, 4 enum-rule methods, 4 regex-type methods) over one pool of live objects, plus each operation repeated 12 times and 3 round-robins of the whole alphabet; every result (verdict, code, position, AST, example bytes, used-type list, enum values) must equal the result on fresh objects, and every value handed to the caller must still equal its snapshot at the end of the history; (c) the same with every single sync.Pool answer deviated (fresh object / oldest pooled object) for histories <= 2; (b) map order: for every scenario of a corpus (type-reference / allOf / additionalProperties / key-shortcut families, type graphs, multi-shortcut objects) ALL single deviations (descending, rotations) of every dynamic range-over-map instance (thorough: pairs) - the library is built through an overlay that turns every `for k := range map` into iteration over an explicitly ordered key list - must leave all public results unchanged. states = distinct (history prefix) pool states, transitions = operations executed, traces_validated_against_impl = histories/scenario runs executed on the real library.",
+		Rule:           "(a) histories: ALL sequences of <= 3 (thorough 4) operations from a 57-operation alphabet (8 schema methods x {plain schema, schema with types/allOf and an enum rule object that is itself in the pool, invalid schema}, 6 on a lexically broken schema, 4 on a broken enum rule, Check/Len on 3 documents and on an embedded document with trailing text, Validate and the NextLexeme stream of LIVE document objects that have only been through the rewinding Len/Check, 4 enum-rule methods, 4 regex-type methods) over one pool of live objects, plus each operation repeated 12 times and 3 round-robins of the whole alphabet; every result (verdict, code, position, AST, example bytes, used-type list, enum values) must equal the result on fresh objects, and every value handed to the caller must still equal its snapshot at the end of the history; (c) the same with every single sync.Pool answer deviated (fresh object / oldest pooled object) for histories <= 2; (d) interleaved streams: for every pair of 6 small documents (the first also as an embedded document with trailing text) ALL merges of the two NextLexeme call sequences: each document must deliver exactly the events it delivers when read alone; (b) map order: for every scenario of a corpus (type-reference / allOf / additionalProperties / key-shortcut families, type graphs, multi-shortcut objects) ALL single deviations (descending, rotations) of every dynamic range-over-map instance (thorough: pairs) - the library is built through an overlay that turns every `for k := range map` into iteration over an explicitly ordered key list - must leave all public results unchanged. states = distinct (history prefix) pool states, transitions = operations executed, traces_validated_against_impl = histories/scenario runs executed on the real library.",
 		Workers:        func(string) int { return 16 },
 		Run:            run,
 		Replay:         replay,
@@ -54,27 +55,34 @@ const invalidText = "{\n  \"a\": 1 // {min: 5}\n}"
 var docTexts = []string{`{"a":1,"b":["x"]}`, `{"a":-1,"b":[]}`, `{"a":1,`, `{"id":1,"n":"x","k1":true,"base":2}`}
 
 type pool struct {
-	P, U, X *jschema.Schema
-	D       []jlib.Document
-	E       *enum.Enum
-	R       *regex.Schema
+	P, U, X, L *jschema.Schema // plain, with types/rule, semantically invalid, lexically broken
+	D          []jlib.Document
+	consumed   []bool     // D[k] has been read through NextLexeme/Validate since its last rewinding Len/Check
+	E, E2      *enum.Enum // E is ALSO the rule @lvl of schema U; E2 is lexically broken
+	R          *regex.Schema
 }
+
+const brokenText = "{\n  \"a\": 1,\n  \"b\": tru\n}"
+const enumText = "[\n  // small\n  1, // one\n  // large\n  2,\n  \"two\"\n]"
 
 func newPool() *pool {
 	p := &pool{}
 	p.P = jschema.New("plain", plainText)
 	p.U = jschema.New("typed", typedText)
-	p.U.AddRule("@lvl", enum.New("@lvl", "[1, 2]"))
+	p.E = enum.New("@lvl", enumText)
+	p.U.AddRule("@lvl", p.E)
 	p.U.AddType("@base", jschema.New("@base", "{\n  \"base\": 1 // {optional: true}\n}"))
 	p.U.AddType("@str", jschema.New("@str", "\"s\" // {minLength: 1}"))
 	p.U.AddType("@num", jschema.New("@num", "1"))
 	p.U.AddType("@key", jschema.New("@key", "\"k\" // {regex: \"^k\"}"))
 	p.X = jschema.New("invalid", invalidText)
+	p.L = jschema.New("broken", brokenText)
+	p.E2 = enum.New("@e2", "[\n  1,\n  \"x")
 	for i := range docTexts {
 		p.D = append(p.D, newDoc(i))
 	}
 	p.D = append(p.D, newDoc(4))
-	p.E = enum.New("@e", "[\n  1, // one\n  \"two\"\n]")
+	p.consumed = make([]bool, len(p.D))
 	p.R = regex.New("@r", "/^ab+c$/")
 	return p
 }
@@ -160,9 +168,14 @@ func alphabet() []opT {
 	ops = append(ops, schemaOps("X", func(p *pool) *jschema.Schema { return p.X })...)
 	for i := 0; i < 3; i++ {
 		i := i
-		ops = append(ops, opT{fmt.Sprintf("doc%d.Check", i), func(p *pool) (string, *held) { return errStr(p.D[i].Check()), nil }})
+		ops = append(ops, opT{fmt.Sprintf("doc%d.Check", i), func(p *pool) (string, *held) {
+			e := errStr(p.D[i].Check())
+			p.consumed[i] = false
+			return e, nil
+		}})
 		ops = append(ops, opT{fmt.Sprintf("doc%d.Len", i), func(p *pool) (string, *held) {
 			n, err := p.D[i].Len()
+			p.consumed[i] = false
 			return fmt.Sprint(n, " ", errStr(err)), nil
 		}})
 	}
@@ -173,18 +186,29 @@ func alphabet() []opT {
 		k := k
 		mk := func() jlib.Document { return newDoc(k) }
 		if k == 4 {
-			ops = append(ops, opT{"docT.Check", func(p *pool) (string, *held) { return errStr(p.D[k].Check()), nil }})
+			ops = append(ops, opT{"docT.Check", func(p *pool) (string, *held) {
+				e := errStr(p.D[k].Check())
+				p.consumed[k] = false
+				return e, nil
+			}})
 			ops = append(ops, opT{"docT.Len", func(p *pool) (string, *held) {
 				n, err := p.D[k].Len()
+				p.consumed[k] = false
 				return fmt.Sprint(n, " ", errStr(err)), nil
 			}})
 		}
 		ops = append(ops, opT{fmt.Sprintf("P.Validate(live doc%d)", k), func(p *pool) (string, *held) {
+			if p.consumed[k] {
+				p.D[k] = mk() // a consumed stream is not read again: take a fresh object
+			}
 			err := p.P.Validate(p.D[k])
-			p.D[k] = mk()
+			p.consumed[k] = true // the object stays: Len/Check on it must still be right
 			return errStr(err), nil
 		}})
 		ops = append(ops, opT{fmt.Sprintf("doc%d.NextLexeme*", k), func(p *pool) (string, *held) {
+			if p.consumed[k] {
+				p.D[k] = mk()
+			}
 			var b strings.Builder
 			for i := 0; i < 200; i++ {
 				lex, err := p.D[k].NextLexeme()
@@ -198,10 +222,25 @@ func alphabet() []opT {
 				}
 				fmt.Fprintf(&b, "%s[%d:%d];", lex.Type(), lex.Begin(), lex.End())
 			}
-			p.D[k] = mk()
+			p.consumed[k] = true
 			return b.String(), nil
 		}})
 	}
+	// a lexically broken schema and a lexically broken enum rule: errors must be as stable as results
+	for _, o := range schemaOps("L", func(p *pool) *jschema.Schema { return p.L }) {
+		if !strings.Contains(o.name, "Validate(doc") || strings.HasSuffix(o.name, "Validate(doc0)") {
+			ops = append(ops, o)
+		}
+	}
+	ops = append(ops,
+		opT{"E2.Check", func(p *pool) (string, *held) { return errStr(p.E2.Check()), nil }},
+		opT{"E2.Values", func(p *pool) (string, *held) {
+			v, err := p.E2.Values()
+			return fmt.Sprint(len(v), " ", errStr(err)), nil
+		}},
+		opT{"E2.Len", func(p *pool) (string, *held) { n, err := p.E2.Len(); return fmt.Sprint(n, " ", errStr(err)), nil }},
+		opT{"E2.GetAST", func(p *pool) (string, *held) { _, err := p.E2.GetAST(); return errStr(err), nil }},
+	)
 	ops = append(ops,
 		opT{"E.Check", func(p *pool) (string, *held) { return errStr(p.E.Check()), nil }},
 		opT{"E.Values", func(p *pool) (string, *held) {
@@ -468,6 +507,13 @@ func mapOrderCases(thorough bool, f func(sc.Case, []string)) {
 			}
 		}
 	}
+	// two added types with an error each: which one Check reports must not depend on the map order
+	for _, mesh := range []bool{false, true} {
+		f(sc.Case{Root: gen.Obj(gen.P("p", gen.Ref("@A")), gen.P("q", gen.Ref("@B"))), Mesh: mesh, Types: []sc.TypeDecl{
+			{Name: "@A", Body: gen.Obj(gen.P("x", gen.Int("1").With(gen.R("min", "5"))))},
+			{Name: "@B", Body: gen.Obj(gen.P("y", gen.Int("1").With(gen.R("min", "6"))))},
+			{Name: "@C", Body: gen.Obj(gen.P("z", gen.Int("1").With(gen.RL("or", gen.RuleItem{Set: []gen.Rule{gen.R("type", `"string"`), gen.R("minLength", "1")}}, gen.RuleItem{Set: []gen.Rule{gen.R("type", `"boolean"`)}}))))}}}, []string{`{}`})
+	}
 	// an error inside a node inherited through allOf: it lies in the parent's file
 	for _, root := range []*gen.Node{gen.Ref("@A"), gen.Obj(gen.P("k", gen.Ref("@A")))} {
 		for _, mesh := range []bool{false, true} {
@@ -547,6 +593,7 @@ func mapOrder(c *ev.Ctx) {
 
 func run(c *ev.Ctx) {
 	histories(c)
+	streamx.Run(c)
 	mapOrder(c)
 	// static site inventory (written by the overlay generator)
 	if data, err := os.ReadFile(os.Getenv("VERIF_DIR") + "/.build/overlay/sites.json"); err == nil {
@@ -586,6 +633,14 @@ func replay(raw stdjson.RawMessage) (bool, string) {
 	var cs caseT
 	if err := stdjson.Unmarshal(raw, &cs); err != nil {
 		return false, err.Error()
+	}
+	if cs.Kind == "streams" {
+		var sc streamx.Case
+		if err := stdjson.Unmarshal(raw, &sc); err != nil {
+			return false, err.Error()
+		}
+		d := streamx.RunMerge(sc)
+		return d != "", d
 	}
 	if cs.Kind == "history" {
 		ops := alphabet()
